@@ -90,6 +90,10 @@ func init() {
 		}
 		return nil
 	})
+	reg(V+"InfoErr", func(in *Interp, fn *ssa.Function, a []Value, pos token.Pos) Value {
+		in.E.Info("error: " + in.describe(a[0]))
+		return nil
+	})
 	reg(V+"Symbolic", func(in *Interp, fn *ssa.Function, a []Value, pos token.Pos) Value { return BoolConst(in.Concrete == nil) })
 	reg(V+"And", func(in *Interp, fn *ssa.Function, a []Value, pos token.Pos) Value { return And(a[0].(*Term), a[1].(*Term)) })
 	reg(V+"Or", func(in *Interp, fn *ssa.Function, a []Value, pos token.Pos) Value { return Or(a[0].(*Term), a[1].(*Term)) })
